@@ -289,6 +289,12 @@ KEYS = {
     "Tab": b"\t", "Enter": b"\r", "Up": b"\x1b[A", "Down": b"\x1b[B", "Right": b"\x1b[C", "Left": b"\x1b[D",
     "q": b"q", "CtrlC": b"\x03", "l": b"l", "i": b"i", "h": b"h", "t": b"t", "n": b"n", "-": b"-", "+": b"+",
     "Esc": b"\x1b", "PageUp": b"\x1b[5~", "Home": b"\x1b[H", "BackTab": b"\x1b[Z", "x": b"x", "Space": b" ",
+    # every other key of a keyboard is an operator action too (none of them is a quit request:
+    # 'q' with any modifier and Ctrl-C are)
+    "F6": b"\x1b[17~", "F7": b"\x1b[18~", "F8": b"\x1b[19~", "F9": b"\x1b[20~", "F10": b"\x1b[21~", "F11": b"\x1b[23~", "F12": b"\x1b[24~",
+    "End": b"\x1b[F", "PageDown": b"\x1b[6~", "Insert": b"\x1b[2~", "Delete": b"\x1b[3~", "Backspace": b"\x7f",
+    "ShiftF1": b"\x1b[1;2P", "CtrlUp": b"\x1b[1;5A", "AltLeft": b"\x1b[1;3D", "ShiftTab": b"\x1b[Z", "CtrlA": b"\x01", "CtrlL": b"\x0c",
+    "AltX": b"\x1bx", "0": b"0", "9": b"9", "Q_upper_is_not_q": b"Z", "?": b"?", "euro": "\u20ac".encode(), "a-umlaut": "\u00e4".encode(),
 }
 
 
